@@ -32,7 +32,7 @@ class C11(P.Property):
     rule = ("history = 4..16 client operations biased 55/45 between the legal next step and an arbitrary one, each on a freshly "
             "constructed Service(sid) as commands.py does, + scheme + database + network profile + gaps; non-trivial = at least one "
             "refused operation and at least one operation that used a connection; distinct = digest of (flag set, operation, outcome)*")
-    real_stub = dict(deployment="real client Service + real server + websockets on the simulated loop/TCP; disk seam observing; no kills (C13)")
+    real_stub = dict(deployment="real client Service + real server + websockets on the simulated loop/TCP; disk seam observing; no crash points (C13), but the server may be down for one command; wall clock (time.time) and file time stamps (os.stat) simulated: follow the virtual clock, steppable, per-run stamp granularity")
     assumptions = ["one service per run; operations before any create use an unknown sid"]
     probe_names = ["key_regen_refused", "encrypt_again_refused", "upload_before_create_refused", "search_before_upload_refused",
                    "invalid_config_refused", "create_again_refused", "create_from_stored_config_refused", "reached_uploaded", "scheme_refused_input", "op_on_unknown_sid", "op_timed_out_under_stall", "service_deleted_on_server", "second_service_created", "via_commands", "create_with_taken_name_refused", "second_service_unusual_name", "network_op_while_server_down"]
